@@ -188,6 +188,7 @@ func main() {
 	r.rsaTime()
 	r.jwtHS()
 	r.jwtRS()
+	r.kidMatrix()
 	r.claims()
 	r.passcodes()
 }
